@@ -2,6 +2,15 @@
 # Regenerates MANIFEST.json from the table below (single source of truth).
 import json
 CHECKS = {
+ "C06": dict(cat="exploration", technique="runtime monitor: selection function vs four-tier reference model (exhaustive block + random), registry-world builds vs request-replay model",
+   text="resolve_version is called directly and compared with a model of the four-tier rule over an exhaustive block (7^4 registry configurations x 14 requirements x all already-selected and cached subsets x cutoff x 4 exclusion modes = 44M cases; quick takes a seeded 1/37 stride) and a random block on an 8-version universe; at graph level thousands of generated registry worlds (several requirements per package arriving in different orders, lockfile-seeded selections, yanked fallbacks, cutoff dates, cache-busting restarts, prefer_cached mode, tags, unknown packages) are built for real and mappings(), redirects, error kinds and used_yanked_packages() compared with a model that replays requests in FIFO order.",
+   note="deno_semver's matching is trusted (used by the model)", ref="§4 C06"),
+ "C07": dict(cat="exploration", technique="runtime monitor: registry-world builds vs bookkeeping model; URL<->nv round-trip and attribution traps",
+   text="Generated registries (prefix-trap names, prerelease versions, exports as string/object/non-string/absent, packages importing one another by jsr:, npm:, https registry URLs, statically and dynamically, with and without an npm resolver) are built for real; redirects, unknown-export errors (listing every key), package_exports() and packages_with_deps() are compared with a bookkeeping model; package_url/package_url_to_nv round-trip and never-attribute-to-another-package traps over generated names, versions and registry bases (ports, schemes, host suffixes).",
+   note="expected selections come from the C06 model", ref="§4 C07"),
+ "C19": dict(cat="exploration", technique="runtime monitor: histories of build()/reload() on one graph vs from-scratch builds",
+   text="(1) every order-preserving partition of a generated world's roots into 2-3 successive build() calls vs the single-call build, then build() again with known roots (graph unchanged, zero loader calls); (2) histories of 1-4 edit+reload steps compared with a from-scratch build of the edited sources (entries identical, redirects present, stale entries untouched).",
+   note="errors compared by class and message; a referrer must not be lost (known finding); edits touch JS/TS modules", ref="§3 C19"),
  "C01": dict(cat="exploration", technique="runtime monitor: real builds vs generator ground truth through an executable closure model + model-free self-closure invariant",
    text="Worlds are rendered from abstract import lists (13 import forms, pragmas, headers, 9 media types, redirects, failures, resolver, configured imports), so the truth about what each module declares does not come from a parser. Every real build (3 kinds x options) is compared field by field with the closure model (entries and classes, redirects, per-dependency code/type target, attribute, static-vs-dynamic, types dependency) and checked by a model-free closure invariant. 12 000 builds quick, 600 000 thorough.",
    note="model tier excludes jsr/npm/node/data schemes and asset/source-phase imports; generator enforces the same-type-attribute proviso and rejects worlds whose JSON/unknown entries are reachable in both lenient and strict contexts (order-dependent by design)", ref="§3 C01, Appendix A"),
